@@ -13,5 +13,5 @@ trap 'git -C /repo worktree remove --force "$wt" >/dev/null 2>&1; rm -rf "/tmp/s
 git -C "$wt" apply "$VERIF/seeded/$id/patch.diff" || { echo "PATCH DOES NOT APPLY"; exit 2; }
 "$VERIF/seedrun.sh" "$wt" "$prop" "$tier" "$@" > "/tmp/seedwt/$id.$prop.out" 2>&1
 rc=$?
-grep -v "^KNOWN" "/tmp/seedwt/$id.$prop.out" | grep -E "^$prop |^ +[0-9]+  |BUILD|HARNESS" | head -12 | cut -c1-200
+grep -av "^KNOWN" "/tmp/seedwt/$id.$prop.out" | grep -aE "^$prop |^ +[0-9]+  |BUILD|HARNESS" | head -12 | cut -c1-200
 exit $rc
